@@ -53,6 +53,9 @@ struct ChildShared
   int helper_system_status[4];
   int mkdtemp_calls;
   int private_tmp;
+  int bad_spec;
+  long long spec_id;
+  long cpu_limit_s;
   long simm_allocs, simm_bytes;
   uint64_t simm_addr_hash;
 };
@@ -344,21 +347,38 @@ int main(int argc, char **argv)
       run_child(spec);
       return 115;
     }
-  char *line = 0; size_t cap = 0; ssize_t len;
   // The children inherit the server's stdio objects.  The server therefore never uses the FILE 'stdout'
   // (its buffering mode must be decided freshly by glibc in each child, from the child's own fd 1);
   // results go to a private stream on a duplicate of the server's fd 1.
   FILE *resf = fdopen(dup(1), "w");
   if (!resf) { perror("fdopen"); return 2; }
+  static char resbuf[1 << 16];
+  setvbuf(resf, resbuf, _IOFBF, sizeof resbuf);      // no heap buffer for the result stream either
   int res_fd = fileno(resf);
 #define printf(...) fprintf(resf, __VA_ARGS__)
 #define RESFLUSH() fflush(resf)
-  while ((len = getline(&line, &cap, stdin)) > 0)
+  // The children also inherit the server's *heap*: whatever the server allocated and freed so far decides the addresses
+  // the tool will get from malloc, and libabigail's behaviour between synchronisation points (e.g. the order in which
+  // files are opened) follows containers hashed on addresses.  So that the k-th run of a server and its first run start
+  // from the very same heap, the server allocates nothing per request: the specification is read into a static buffer
+  // with read(2) and parsed by the child; the two fields the server itself needs come back through the shared page.
+  static char linebuf[1 << 20];
+  for (;;)
     {
-      JParser jp(line);
-      JVal spec = jp.parse();
-      if (!jp.ok || spec.t != JVal::OBJ) { printf("{\"error\":\"bad spec\"}\n"); RESFLUSH(); continue; }
+      size_t len = 0;
+      bool eof = false;
+      while (len < sizeof linebuf - 1)
+	{
+	  ssize_t n = read(0, linebuf + len, sizeof linebuf - 1 - len);
+	  if (n < 0 && errno == EINTR) continue;
+	  if (n <= 0) { eof = true; break; }
+	  len += (size_t) n;
+	  if (linebuf[len - 1] == '\n') break;       // one request at a time: the line ends where the data ends
+	}
+      if (eof && len == 0) break;
+      linebuf[len] = 0;
       memset(CS, 0, sizeof *CS);
+      CS->cpu_limit_s = 20;
       simf_reset();
       RESFLUSH(); fflush(stderr);
       long t0 = now_ms();
@@ -368,26 +388,32 @@ int main(int argc, char **argv)
 	{
 	  signal(SIGPIPE, SIG_DFL);
 	  close(res_fd);
+	  JParser jp(linebuf);
+	  JVal spec = jp.parse();
+	  if (!jp.ok || spec.t != JVal::OBJ) { CS->bad_spec = 1; _exit(116); }
+	  CS->spec_id = (long long) spec.num("id", 0);
+	  CS->cpu_limit_s = (long) spec.num("cpu_limit_s", 20);
 	  run_child(spec);
 	  _exit(115);
 	}
       int status = 0; struct rusage ru; memset(&ru, 0, sizeof ru);
       // real-time backstop only for the infrastructure (never a verdict): 20x the CPU limit
-      long wall_limit_ms = (long) spec.num("cpu_limit_s", 20) * 20000L + 60000L;
       bool wall_killed = false;
       for (;;)
 	{
 	  pid_t r = wait4(pid, &status, WNOHANG, &ru);
 	  if (r == pid) break;
 	  if (r < 0 && errno != EINTR) break;
+	  long wall_limit_ms = CS->cpu_limit_s * 20000L + 60000L;      // set by the child as soon as it has parsed the specification
 	  if (now_ms() - t0 > wall_limit_ms) { kill(pid, SIGKILL); wall_killed = true; wait4(pid, &status, 0, &ru); break; }
 	  usleep(500);
 	}
+      if (CS->bad_spec) { printf("{\"error\":\"bad spec\"}\n"); RESFLUSH(); continue; }
       long t1 = now_ms();
       SfShared *S = simf_shared();
       long cpu_ms = ru.ru_utime.tv_sec * 1000L + ru.ru_utime.tv_usec / 1000L + ru.ru_stime.tv_sec * 1000L + ru.ru_stime.tv_usec / 1000L;
       printf("{\"id\":%lld,\"exit\":%d,\"signal\":%d,\"wall_killed\":%d,\"cpu_ms\":%ld,\"wall_ms\":%ld,\"reached_exit\":%d,\"maxrss_kb\":%ld",
-	     spec.num("id", 0), WIFEXITED(status) ? WEXITSTATUS(status) : -1, WIFSIGNALED(status) ? WTERMSIG(status) : 0, (int) wall_killed,
+	     CS->spec_id, WIFEXITED(status) ? WEXITSTATUS(status) : -1, WIFSIGNALED(status) ? WTERMSIG(status) : 0, (int) wall_killed,
 	     cpu_ms, t1 - t0, CS->reached_exit, ru.ru_maxrss);
       print_child_info(resf);
       printf("}\n");
